@@ -120,14 +120,25 @@ class Ctx:
         return r
 
     # -- V -------------------------------------------------------------------------------------
-    def validate_events(self, module, cfg, events, *, chunk=1500, timeout=3000, jobs=None, on_reject=None):
+    def validate_events(self, module, cfg, events, *, chunk=1500, timeout=3000, jobs=None, on_reject=None, boundary=None):
         '''events: list of json-able dicts, each with a unique integer "id".  The trace spec consumes one
         line per state, prints <<"VERDICT", id, clause>> for every rejected event and <<"DONE", n>> from its
         post-condition.  Returns {id: clause} for rejected events.'''
         if not events:
             return {}
         work = tlc.subdir('trace-' + module)
-        chunks = [events[i:i + chunk] for i in range(0, len(events), chunk)]
+        if boundary is None:
+            chunks = [events[i:i + chunk] for i in range(0, len(events), chunk)]
+        else:
+            # histories must not be cut: a chunk ends only where the next event starts a new history
+            chunks, cur = [], []
+            for ev in events:
+                if boundary(ev) and len(cur) >= chunk:
+                    chunks.append(cur)
+                    cur = []
+                cur.append(ev)
+            if cur:
+                chunks.append(cur)
         paths = []
         for ci, ch in enumerate(chunks):
             p = os.path.join(work, 'trace%d.ndjson' % ci)
